@@ -26,7 +26,9 @@ SHRINK_LISTS = [('data',)]
 EXPECTED_PROBES = ['unresponsive_seen', 'close_timeout_fired', 'ping_rate_zero',
                    'late_pong', 'close_timeout_disabled', 'ping_lt_poll',
                    'graceful_end', 'jitter', 'data_wakeups', 'ping_windows_checked',
-                   'trickled_frame', 'auto_pong_off']
+                   'trickled_frame', 'auto_pong_off',
+                   'timeout_without_auto_ping',
+                   'close_called_again_while_closing']
 
 EPS = 2e-5      # float rounding at a 1.7e9 epoch (2^-22 s) with margin
 
@@ -52,6 +54,10 @@ def make_case(family, i, rng, tier):
     t = rng.choice([None, None, 0])
     if r and rng.random() < 0.6:
         t = rng.choice([r * 0.5, r * 2, r * 2.5, p * 3, p * 10])
+    if not r and rng.random() < 0.5:
+        # a ping timeout without automatic pings (the application or the
+        # server keeps the Pongs coming, or nobody does)
+        t = rng.choice([p * 3, p * 10, p * 2.5])
     c = rng.choice([None, 0, p * 0.5, p * 3, 30 if p >= 1 else p * 7,
                     30 if p >= 1 else p * 12])
     horizon = min(max(20 * p, 6 * (r or p), 4 * (t or 0), 3 * (c or 0)), 900)
@@ -90,6 +96,9 @@ def make_case(family, i, rng, tier):
                                        {'name': 'poll', 'nth': rng.choice([1, 2, 5])},
                                        {'name': 'text', 'nth': 0}])
         case['close_reply'] = rng.choice(['prompt', 'late', 'never', 'never'])
+        if rng.random() < 0.3:
+            # close() again at every later Poll (and other event)
+            case['close_repeat'] = True
     elif cm == 'server_close':
         case['server_close_at'] = round(rng.uniform(0, horizon * 0.7), 3)
     case['end'] = rng.choice(['eof', 'eof', 'rst'])
@@ -154,6 +163,12 @@ def build(case):
     if cm == 'app_close':
         app.append({'when': dict(case['close_at']),
                     'do': [{'op': 'close', 'code': 1000, 'reason': 'bye'}]})
+        if case.get('close_repeat'):
+            # harmless before the first close(): it only acts once closing
+            for n in ('poll', 'pong', 'text', 'ping'):
+                app.append({'when': {'name': n},
+                            'do': [{'op': 'close_if_closing', 'code': 1001,
+                                    'reason': 'again'}]})
     sc = {'url': 'ws://example.test/', 'epoch': case.get('epoch', 0),
           'connect': {'poll': p, 'ping_rate': case['ping_rate'],
                       'ping_timeout': case['ping_timeout'],
@@ -205,6 +220,11 @@ def execute(case):
     polls = [rel(e.t) for e in tr.events if e.name == 'poll']
     if L:
         res.stats['probe:jitter'] += 1
+    if t and not r:
+        res.stats['probe:timeout_without_auto_ping'] += 1
+    if sum(1 for cc in tr.calls if cc.op == 'close_if_closing' and
+           cc.outcome == 'ok') >= 1:
+        res.stats['probe:close_called_again_while_closing'] += 1
     # ---- Poll spacing
     if not polls or polls[0] > eps:
         res.bad('C15/poll/not_right_after_ready',
